@@ -11,7 +11,7 @@ use std::collections::BTreeSet;
 use std::sync::Arc;
 
 const PROBE: &str = r#"
-function validate(ctx, content)
+local function probe()
   local seen, queue, out = {}, {}, {}
   local edges = 0
   local function push(v, path)
@@ -46,6 +46,11 @@ function validate(ctx, content)
   table.sort(out)
   return "STATES=" .. tostring(#queue) .. " EDGES=" .. tostring(edges) .. "\n" .. table.concat(out, "\n")
 end
+-- The script's top-level chunk runs before validate(): what is reachable *then* counts as well.
+local at_load = probe()
+function validate(ctx, content)
+  return at_load .. "\n=====CALL=====\n" .. probe()
+end
 "#;
 
 /// Lua 5.4 base library minus `dofile`, `loadfile`, `require`, plus coroutine, table, string, utf8, math.
@@ -76,10 +81,19 @@ fn run_probe(cfg: &Cfg, repo: &Scratch, mode: Option<&str>) -> Result<(BTreeSet<
     let diags = run.diags().map_err(|e| format!("{e}; {}", run.summary()))?;
     let d = diags.iter().find(|d| d.code == "check-lua" && d.file == "probe.py").ok_or_else(|| format!("no probe diagnostic: {}", run.summary()))?;
     let text = d.data.get("lua_error").and_then(Value::as_str).ok_or("no lua_error")?;
-    let mut lines = text.lines();
-    let header = lines.next().unwrap_or("");
-    let num = |key: &str| header.split_whitespace().find_map(|t| t.strip_prefix(key)).and_then(|v| v.parse::<u64>().ok()).unwrap_or(0);
-    Ok((lines.map(normalise).collect(), num("STATES="), num("EDGES=")))
+    // Two explorations: at load time of the script and inside validate(); a function reachable in
+    // either is reachable for the script (it can keep what it found at load time).
+    let (mut set, mut states, mut edges) = (BTreeSet::new(), 0, 0);
+    for half in text.split("\n=====CALL=====\n") {
+        let mut lines = half.lines();
+        let header = lines.next().unwrap_or("");
+        let num = |key: &str| header.split_whitespace().find_map(|t| t.strip_prefix(key)).and_then(|v| v.parse::<u64>().ok()).unwrap_or(0);
+        states += num("STATES=");
+        edges += num("EDGES=");
+        // `probe`, `at_load` are locals; `validate` does not exist yet at load time.
+        set.extend(lines.map(normalise));
+    }
+    Ok((set, states, edges))
 }
 
 const ESCAPES: &[(&str, &str)] = &[
@@ -105,18 +119,19 @@ const ESCAPES: &[(&str, &str)] = &[
 ];
 
 fn escape_script(canary: &str, marker: &str) -> String {
-    let mut s = format!("local CANARY = {canary:?}\nlocal MARKER = {marker:?}\nfunction validate(ctx, content)\n  local results = {{}}\n");
+    // The attempts run twice: while the script is loaded and inside validate().
+    let mut s = format!("local CANARY = {canary:?}\nlocal MARKER = {marker:?}\nlocal function attempts(phase)\n  local results = {{}}\n");
     for (name, body) in ESCAPES {
         s.push_str(&format!(
-            "  do\n    local ok, res = pcall(function()\n      {body}\n    end)\n    results[#results + 1] = {name:?} .. '=' .. ((ok and res) and 'ESCAPED' or 'blocked')\n  end\n"
+            "  do\n    local ok, res = pcall(function()\n      {body}\n    end)\n    results[#results + 1] = {name:?} .. '@' .. phase .. '=' .. ((ok and res) and 'ESCAPED' or 'blocked')\n  end\n"
         ));
     }
-    s.push_str("  return table.concat(results, '\\n')\nend\n");
+    s.push_str("  return table.concat(results, '\\n')\nend\nlocal at_load = attempts('load')\nfunction validate(ctx, content)\n  return at_load .. '\\n' .. attempts('call')\nend\n");
     s
 }
 
 pub fn run(cfg: &Cfg, sink: &Arc<Sink>) -> Report {
-    let mut report = Report::new("for each value of BLOCKWATCH_LUA_MODE ∈ {unset, sandboxed, Sandboxed, SAFE, empty, 'unsafe ' (trailing blank), 0, safe, unsafe}: a probe script, run by the real CLI, does a breadth-first search over the object graph reachable from _G, _ENV and the string metatable through table fields, keys and metatables (states = reachable tables/functions/userdata, transitions = edges followed) and returns every reachable function path; oracle: in the default class the set equals the allow-list (base minus dofile/loadfile/require, coroutine, table, string, utf8, math) and none of io/os/package/debug/require/dofile/loadfile is reachable; safe ⊇ io, os, package, require and has no debug, no package.loadlib; unsafe has debug and package.loadlib; plus 19 concrete escape attempts in every default-class mode with a canary file; non-trivial = every mode");
+    let mut report = Report::new("for each value of BLOCKWATCH_LUA_MODE ∈ {unset, sandboxed, Sandboxed, SAFE, empty, 'unsafe ' (trailing blank), 0, safe, unsafe}: a probe script, run by the real CLI, does — once while it is being loaded and once inside validate() — a breadth-first search over the object graph reachable from _G, _ENV and the string metatable through table fields, keys and metatables (states = reachable tables/functions/userdata, transitions = edges followed) and returns every reachable function path; oracle: in the default class the set equals the allow-list (base minus dofile/loadfile/require, coroutine, table, string, utf8, math) and none of io/os/package/debug/require/dofile/loadfile is reachable; safe ⊇ io, os, package, require and has no debug, no package.loadlib; unsafe has debug and package.loadlib; plus 19 concrete escape attempts in every default-class mode with a canary file; non-trivial = every mode");
     report.assume("Lua has no ambient authority beyond values reachable from the script's environment; upvalues of library functions are not reachable without the debug library");
     let repo = Scratch::repo("c17");
     repo.write("probe.lua", PROBE);
